@@ -232,7 +232,7 @@ def run_batch(cgs, tier, seed, keep_dir=None, variants_fn=None, owner=None, debu
                     kind = rec["res"]["kind"]
                     if recovery and kind in ("tok", "eof"):
                         continue   # with `!` the runtime recovers instead; LRMachine says how
-                    base = [cg["ts"].index(t) for t in rec["input"]]
+                    base = [core.tok_kind(cg, t) for t in rec["input"]]
                     err_at = rec["res"]["at"] if kind == "inj" else None
                     if kind == "inj":
                         base = base + [0]
@@ -244,7 +244,7 @@ def run_batch(cgs, tier, seed, keep_dir=None, variants_fn=None, owner=None, debu
                         plan.setdefault((tuple(base + suf), err_at), [None, None, True])[0] = rec
                 for rec in rrecs.get("%s@%s" % (m, s), []):
                     kind = rec["res"]["kind"]
-                    base = [cg["ts"].index(t) for t in rec["input"]]
+                    base = [core.tok_kind(cg, t) for t in rec["input"]]
                     err_at = rec["res"]["at"] if kind == "inj" else None
                     if kind == "inj":
                         base = base + [0]
@@ -298,7 +298,7 @@ def run_batch(cgs, tier, seed, keep_dir=None, variants_fn=None, owner=None, debu
                             "detail": "event %s of %s not explained by LRMachine.tla: %s" % (
                                 st_.get("at"), st_.get("of"), json.dumps(st_)[:400]),
                             "facts": [], "cg": cg_, "suffixed": False,
-                            "raw_input": [cg_["ts"].index(t) for t in tc["fixed"]]})
+                            "raw_input": [core.tok_kind(cg_, t) for t in tc["fixed"]]})
             for v in tviol:
                 m_, start_ = v["id"].split("#")[0].split("@")
                 gid_, algo_, backend_ = m_.split("_")
@@ -603,7 +603,7 @@ def replay(obj):
         reqs = []
         for i, (m, _, _) in enumerate(mods):
             reqs.append({"rid": i + 1, "m": m, "start": obj["start"],
-                         "input": obj.get("raw_input") or [cg["ts"].index(t) for t in obj["input"]],
+                         "input": obj.get("raw_input") or [core.tok_kind(cg, t) for t in obj["input"]],
                          "err_at": obj.get("err_at")})
         ocs = eng_core.run_requests(binp, reqs, wd)
         found = 0
